@@ -603,6 +603,37 @@ pub fn generate(rng: &mut Rng) -> Scenario {
         slice_files.push("only.slice".into());
         k += 1;
     }
+    // names that differ in letter case only are different files (and directories) on this file system
+    if rng.chance(1, 8) {
+        let twin_of = rng.pick(&slice_files).clone();
+        let (dir, name) = match twin_of.rfind('/') {
+            Some(i) => (twin_of[..i].to_owned(), twin_of[i + 1..].to_owned()),
+            None => (String::new(), twin_of.clone()),
+        };
+        let twin = join(&dir, &format!("{}{}", name[..1].to_uppercase(), &name[1..]));
+        if twin != twin_of && !entries.iter().any(|e| e.path == twin) {
+            entries.push(file(twin.clone(), slice_text(k)));
+            slice_files.push(twin);
+            k += 1;
+        }
+    }
+    if rng.chance(1, 12) && dirs.len() > 1 {
+        let d = dirs[1 + rng.usize_below(dirs.len() - 1)].clone();
+        let (parent_dir, name) = match d.rfind('/') {
+            Some(i) => (d[..i].to_owned(), d[i + 1..].to_owned()),
+            None => (String::new(), d.clone()),
+        };
+        let upper = name.to_uppercase();
+        let twin_dir = join(&parent_dir, &upper);
+        if upper != name && !entries.iter().any(|e| e.path == twin_dir) {
+            entries.push(Entry { path: twin_dir.clone(), kind: EntryKind::Dir, mode: None });
+            let p = join(&twin_dir, &format!("f{k}.slice"));
+            entries.push(file(p.clone(), slice_text(k)));
+            slice_files.push(p);
+            dirs.push(twin_dir);
+            k += 1;
+        }
+    }
     // links
     let n_links = if wide { rng.usize_below(14) } else { rng.usize_below(5) };
     for i in 0..n_links {
